@@ -127,7 +127,7 @@ def run(ctx):
             vstep = 100.0 / rng.choice([1, 2, 3, 5, 8, 13, 21, 34, 55, 89, 144, 200])
         elif x < 0.5:
             real = rng.choice([1, 2])
-        drive(ctx, fam, gname, f, SC.settings(rng), rng.randrange(10 ** 6), vstep, real, ncalls)
+        drive(ctx, fam, gname, f, SC.settings(rng, unsat=0.3), rng.randrange(10 ** 6), vstep, real, ncalls)
 
 
 def replay(ctx, w):
